@@ -105,6 +105,27 @@ Theorem C02_current_unique : forall body l v1 v2,
   forall t p, In t l -> In p (prods t) -> lookup p (fs v1) = lookup p (fs v2).
 Proof. exact current_unique. Qed.
 
+(* F28 (repaired): when the states of a task are recorded, its rows for nodes that are no longer
+   its neighbours are deleted - a dependency that left the task and comes back later finds no row *)
+Theorem C02_rows_only_for_current_neighbours : forall E w t k,
+  ~ In k (neighbours E t) -> dblookup (tid t) k (db (record_states E w t)) = None.
+Proof. exact record_states_notin. Qed.
+
+(* the history the defect was found on: t1 reads 101 and 102, then (same source) only 101, then both
+   again with 102 as it was: the third build executes t1 (outcome 0), it used to report it unchanged *)
+Local Open Scope N_scope.
+Example C02_departed_dependency_regression :
+  let t1 := fun ds => mkTask 1 1 ds [111] [] None false [] false 0%Z [] [] in
+  let cfg := mkConfig false false None None None in
+  map (fun o => match o with (x, r, _, _, _, _) => (x, r) end)
+      (run_hist [] [] [HSet 101 5; HSet 102 7; HBuild cfg [t1 [101; 102]] [] [];
+                       HSet 101 6; HBuild cfg [t1 [101]] [] []; HBuild cfg [t1 [101; 102]] [] [];
+                       HBuild cfg [t1 [101; 102]] [] []])
+  = [(0, [(1, 0)]); (0, [(1, 0)]); (0, [(1, 0)]); (0, [(1, 3)])].
+Proof. vm_compute. reflexivity. Qed.
+Local Close Scope N_scope.
+
+Print Assumptions C02_rows_only_for_current_neighbours.
 Print Assumptions C02_never_unchanged_if_differs.
 Print Assumptions C02_rows_only_on_success_or_persist.
 Print Assumptions C02_success_records_current_states.
